@@ -245,15 +245,14 @@ Theorem C09_entry_cancelled_refused : forall s t,
   spin s t = false -> phase_of (lock s) t = Idle ->
   let s1 := fst (estep false s (EnterCancelled t)) in
   snd (estep false s (EnterCancelled t)) = RBlocked /\ lock s1 = lock s /\ spin s1 t = true /\
-  estep false s1 (SpinCancel t) = (emk (lock s) (upd (spin s1) t false) (upd (committed s1) t false), RCancelled).
+  estep false s1 (SpinCancel t) = (unspin s1 (lock s) t, RCancelled).
 Proof. exact entry_cancelled_refused. Qed.
 Print Assumptions C09_entry_cancelled_refused.
 
 Theorem C09_no_step_between_test_and_take : forall fa s t,
-  ereach fa s -> spin s t = true ->
+  ereach fa s -> spin s t = true -> ckmust s t = false ->
   estep false s (SpinReturn t) =
-  (emk (fst (Lock.step (lock s) (AcqBegin t))) (upd (spin s) t false) (upd (committed s) t false),
-   snd (Lock.step (lock s) (AcqBegin t))).
+  (unspin s (fst (Lock.step (lock s) (AcqBegin t))) t, snd (Lock.step (lock s) (AcqBegin t))).
 Proof. exact no_step_between_test_and_take. Qed.
 Print Assumptions C09_no_step_between_test_and_take.
 
@@ -289,3 +288,21 @@ Theorem C09_tie_cancelled_entry_noeffect : forall s t,
 Proof. exact cancelled_entry_noeffect. Qed.
 Print Assumptions C09_tie_cancelled_entry_noeffect.
 
+
+(* native Task.cancel() of a task that sits in the entry check of acquire() (QA audit: formerly not modelled for Lock):
+   whatever is done TO the spinning task, the lock does not move; its step raises only after a native cancel; with a
+   native cancel pending the check cannot return normally (`_must_cancel` raises at the sleep(0)) *)
+Theorem C09_spinner_steps_noeffect : forall s t o,
+  spin s t = true -> op_tid o = t ->
+  lock (fst (estep false s (L o))) = lock s /\
+  (snd (estep false s (L o)) = RCancelled -> ckmust s t = true /\ o = Resume t).
+Proof. exact spinner_steps_noeffect. Qed.
+Print Assumptions C09_spinner_steps_noeffect.
+
+Theorem C09_entry_native_cancel_nonvacuous :
+  let s := final (estep false) (einit false) [L (AcqNowait 2); EnterCancelled 1; L (Cancel 1)] in
+  spin s 1 = true /\ ckmust s 1 = true /\ owner (lock s) = Some 2 /\ ereach false s /\
+  snd (estep false s (L (Resume 1))) = RCancelled /\ lock (fst (estep false s (L (Resume 1)))) = lock s /\
+  snd (estep false s (SpinReturn 1)) = RCancelled.
+Proof. exact ex_entry_native_cancel. Qed.
+Print Assumptions C09_entry_native_cancel_nonvacuous.
